@@ -23,8 +23,6 @@ static const void *_cffi_exports[30];
 #ifndef WITH_THREAD
 # define WITH_THREAD
 #endif
-static PyObject *_cffi_start_error_capture(void) { return NULL; }
-static void _cffi_stop_error_capture(PyObject *ecap) { (void)ecap; }
 
 /* Yield / delay injection and wait-state logging *between* the critical
    sections of the real code: function-like macros around the primitives the
